@@ -507,6 +507,20 @@ func init() {
 			return c03Run(env, c[idx/625]+"\n"+c[(idx/25)%25]+"\n"+c[idx%25], modes)
 		},
 	}
+	// a rule, another rule, the first rule once more: the repetition is not
+	// redundant when the rule in between takes something back
+	restated := &fw.Phase{
+		Name: "exhaustive-rule-restated-after-another", Chroot: true, Exhaustive: true,
+		N: func(string) int { return 25 * 25 },
+		Run: func(env *fw.Env, idx int) fw.Result {
+			c := []string{"a", "!a", "a/", "!a/", "*", "!*", "a/*", "!a/*", "**/b", "!**/b", "*.tf", "!*.tf", "/a/", "!/a/b/", "c", "!c", "*/c", "!*/*/c", ".terraform/", "!.terraform/", "modules/", "!.git/", "a/**", "!a/**", "[ab]/"}
+			modes := "P"
+			if idx%5 == 0 {
+				modes = "PB"
+			}
+			return c03Run(env, c[idx/25]+"\n"+c[idx%25]+"\n"+c[idx/25], modes)
+		},
+	}
 	random := &fw.Phase{
 		Name: "random-rule-files", Chroot: true,
 		N: fw.Fixed(500, 40000),
@@ -550,6 +564,6 @@ func init() {
 			"each through Pack with ignore on, Pack with ignore off, Pack through a dereferenced external directory (archive paths ext/...), and a one-package bundle build. The set of shipped files must equal the set the reference matcher includes. " +
 			"non-trivial = the rule file flips the verdict of >=1 path relative to the default rules; distinct = rule file text x modes",
 		Assumptions: []string{"ref/glob.go is the documented rule language; directory entries are not judged, only files by their own path", "patterns whose meaning the documentation does not fix (backslash escapes, ** glued to other characters, unterminated [) are left to C19"},
-		Phases:      []*fw.Phase{noFile, single, pairs, triples, random},
+		Phases:      []*fw.Phase{noFile, single, pairs, restated, triples, random},
 	})
 }
